@@ -168,6 +168,7 @@ func DecodeBoxSR(startPos uint64, sr bits.SliceReader) (Box, error) {
 	if h.Size > maxSize && h.Name != "mdat" {
 		return nil, fmt.Errorf("decode box %q, size %d too big (max %d)", h.Name, h.Size, maxSize)
 	}
+	h.useCompactSize()
 
 	d, ok := decodersSR[h.Name]
 	payloadStart := sr.GetPos()
